@@ -260,6 +260,17 @@ class Ctx:
         with ThreadPoolExecutor(max_workers=8) as ex:
             rs = list(ex.map(run, files))
         for k, r in enumerate(rs):
+            if r.returncode != 0 and "Cannot infer" in (r.stdout + r.stderr):
+                # a shard whose polymorphic literals (None, []) are all empty cannot be elaborated as a stand-alone
+                # definition: let the checker's argument type decide the type of the case literals instead
+                with open(files[k]) as f:
+                    txt = f.read()
+                i0, i1 = txt.index("Definition cases := ["), txt.index("Fixpoint failing")
+                lit = txt[i0 + len("Definition cases := "):i1].rstrip().rstrip(".")
+                txt = txt[:i0] + txt[i1:].replace(" 0 cases.\n", " 0 (\n%s\n).\n" % lit)
+                with open(files[k], "w") as f:
+                    f.write(txt)
+                r = run(files[k])
             if r.returncode != 0:
                 errs.append((k, (r.stdout + r.stderr)[-1500:]))
                 continue
